@@ -183,3 +183,201 @@ Proof.
     destruct (_ && _); [closer|].
     rewrite bcd_dec_spec. destruct (_ <? _); cbn [bind]; closer.
 Qed.
+
+(* ---------- loops ---------- *)
+
+Definition D_np (D : dec_fn) : Prop := forall ls e t tag, no_panic (D ls e t tag).
+
+Lemma vec_loop_np n step : no_panic step -> forall bs acc,
+  vec_loop n step bs acc <> Panic /\ (forall v r, vec_loop n step bs acc = Ok (v, r) -> blen r <= blen bs).
+Proof.
+  intros Hs. induction n as [|n IH]; intros bs acc; cbn [vec_loop]; [split; discriminate|].
+  destruct (Hs bs) as [Hp Hr]. destruct (step bs) as [[v r]| | |] eqn:E; try (split; discriminate); try congruence.
+  - specialize (Hr v r eq_refl). destruct (blen r =? blen bs) eqn:E2.
+    + split; [discriminate|]. intros v' r' [= _ <-]. lia.
+    + destruct (IH r (v :: acc)) as [A B]. split; [exact A|]. intros v' r' H. apply B in H. lia.
+  - split; [discriminate|]. intros v' r' [= _ <-]. lia.
+Qed.
+
+Lemma vec_loop_fuel n step : no_panic step -> (forall x, step x <> OutOfFuel) -> forall bs acc,
+  (length bs < n)%nat -> vec_loop n step bs acc <> OutOfFuel.
+Proof.
+  intros Hs Hf. induction n as [|n IH]; intros bs acc Hn; [lia|]. cbn [vec_loop].
+  destruct (Hs bs) as [_ Hr]. specialize (Hf bs).
+  destruct (step bs) as [[v r]| | |] eqn:E; try discriminate; try congruence.
+  specialize (Hr v r eq_refl). destruct (blen r =? blen bs) eqn:E2; [discriminate|].
+  apply IH. unfold blen in *. lia.
+Qed.
+
+Lemma dec_positional_np D fs : D_np D -> forall bs,
+  dec_positional D fs bs <> Panic /\ (forall v r, dec_positional D fs bs = Ok (v, r) -> blen r <= blen bs).
+Proof.
+  intros HD. induction fs as [|[name tg ls e t] fs IH]; intros bs; cbn [dec_positional].
+  - split; [discriminate|]. intros v r [= _ <-]. lia.
+  - destruct tg as [tg|]; [apply IH|].
+    destruct (HD ls e t None bs) as [Hp Hr].
+    destruct (D ls e t None bs) as [[v bs1]| | |] eqn:E; cbn [bind]; try (split; discriminate); try congruence.
+    specialize (Hr v bs1 eq_refl). destruct (IH bs1) as [A B].
+    destruct (dec_positional D fs bs1) as [[vs bs2]| | |] eqn:E2; cbn [bind]; try (split; discriminate); try congruence.
+    split; [discriminate|]. intros v' r' [= _ <-]. specialize (B vs bs2 eq_refl). lia.
+Qed.
+
+Lemma find_tagged_in fs : forall num i j f, find_tagged fs num i = Some (j, f) -> In f fs.
+Proof.
+  induction fs as [|g fs IH]; intros num i j f H; cbn [find_tagged] in H; [discriminate|].
+  destruct (f_tag g) as [t|].
+  - destruct (t =? num); [injection H as _ <-; left; reflexivity|right; eapply IH; exact H].
+  - right. eapply IH. exact H.
+Qed.
+
+Lemma tag_loop_np n D fs : D_np D -> forall bs cl seen vals,
+  tag_loop n D fs bs cl seen vals <> Panic /\
+  (forall s v r, tag_loop n D fs bs cl seen vals = Ok (s, v, r) -> blen r <= blen bs).
+Proof.
+  intros HD. induction n as [|n IH]; intros bs cl seen vals; cbn [tag_loop]; [split; discriminate|].
+  destruct bs as [|b0 bs'] eqn:Eb; [split; [discriminate|]; intros s v r [= _ _ <-]; lia|].
+  rewrite <- Eb. clear Eb b0 bs'.
+  destruct (cl =? blen bs); [split; [discriminate|]; intros s v r [= _ _ <-]; lia|].
+  destruct (tag_dec false bs) as [[num r0]| | |] eqn:E.
+  - destruct (find_tagged fs num 0) as [[i [nm tg ls e t]]|].
+    + destruct (existsb (N.eqb num) seen); [split; discriminate|].
+      destruct (HD ls e t (Some num) bs) as [Hp Hr].
+      destruct (D ls e t (Some num) bs) as [[v r]| | |] eqn:E2; cbn [bind]; try (split; discriminate); try congruence.
+      specialize (Hr v r eq_refl). destruct (IH r (blen bs) (num :: seen) (set_nth vals i v)) as [A B].
+      split; [exact A|]. intros s v' r' H. apply B in H. lia.
+    + split; [discriminate|]. intros s v r [= _ _ <-]. lia.
+  - split; [discriminate|]. intros s v r [= _ _ <-]. lia.
+  - destruct (tag_dec_no_panic false bs) as [P _]. congruence.
+  - destruct (tag_dec_no_panic false bs) as [_ P]. congruence.
+Qed.
+
+Lemma tag_loop_fuel n D fs : D_np D ->
+  (forall f, In f fs -> forall tag x, D (f_ls f) (f_enc f) (f_ty f) tag x <> OutOfFuel) ->
+  forall bs cl seen vals, ((length bs < n)%nat \/ ((0 < n)%nat /\ cl = blen bs)) ->
+  tag_loop n D fs bs cl seen vals <> OutOfFuel.
+Proof.
+  intros HD Hf. induction n as [|n IH]; intros bs cl seen vals Hn; [lia|]. cbn [tag_loop].
+  destruct bs as [|b0 bs'] eqn:Eb; [discriminate|]. rewrite <- Eb in *.
+  assert (Hlen : (0 < length bs)%nat) by (rewrite Eb; cbn; lia). clear Eb b0 bs'.
+  destruct (cl =? blen bs) eqn:Ecl; [discriminate|].
+  assert (Hn' : (length bs < S n)%nat) by (destruct Hn as [H|[_ H]]; [exact H|lia]).
+  destruct (tag_dec false bs) as [[num r0]| | |] eqn:E; try discriminate.
+  2:{ destruct (tag_dec_no_panic false bs) as [_ P]. congruence. }
+  destruct (find_tagged fs num 0) as [[i [nm tg ls e t]]|] eqn:Ef; [|discriminate].
+  destruct (existsb (N.eqb num) seen); [discriminate|].
+  apply find_tagged_in in Ef. specialize (Hf _ Ef (Some num) bs). cbn in Hf.
+  destruct (HD ls e t (Some num) bs) as [_ Hr].
+  destruct (D ls e t (Some num) bs) as [[v r]| | |] eqn:E2; cbn [bind]; try discriminate; try congruence.
+  specialize (Hr v r eq_refl). apply IH.
+  destruct (N.eq_dec (blen r) (blen bs)) as [Heq|Hne].
+  - right. split; [lia|]. symmetry. exact Heq.
+  - left. unfold blen in *. lia.
+Qed.
+
+Lemma dec_struct_with_np D fs : D_np D -> no_panic (dec_struct_with D fs).
+Proof.
+  intros HD bs. unfold dec_struct_with.
+  destruct (dec_positional_np D fs HD bs) as [Pp Pr].
+  destruct (dec_positional D fs bs) as [[pos bs1]| | |] eqn:E; cbn [bind]; try (split; discriminate); try congruence.
+  specialize (Pr pos bs1 eq_refl).
+  destruct (tag_loop_np (S (length bs1)) D fs HD bs1 (blen bs1 + 1) [] (init_slots fs pos)) as [Tp Tr].
+  destruct (tag_loop _ D fs bs1 _ _ _) as [[[seen vals] bs2]| | |] eqn:E2; cbn [bind]; try (split; discriminate); try congruence.
+  specialize (Tr seen vals bs2 eq_refl).
+  destruct (filter _ _); split; try discriminate. intros v r [= _ <-]. lia.
+Qed.
+
+Lemma dec_struct_with_fuel D fs : D_np D ->
+  (forall f, In f fs -> forall tag x, D (f_ls f) (f_enc f) (f_ty f) tag x <> OutOfFuel) ->
+  forall bs, dec_struct_with D fs bs <> OutOfFuel.
+Proof.
+  intros HD Hf bs. unfold dec_struct_with.
+  assert (P : forall fs' bs0, (forall f, In f fs' -> In f fs) -> dec_positional D fs' bs0 <> OutOfFuel).
+  { induction fs' as [|[name tg ls e t] fs' IH]; intros bs0 Hin; cbn [dec_positional]; [discriminate|].
+    destruct tg; [apply IH; intros; apply Hin; right; assumption|].
+    pose proof (Hf _ (Hin _ (or_introl eq_refl)) None bs0) as H0. cbn in H0.
+    destruct (D ls e t None bs0) as [[v b1]| | |]; cbn [bind]; try discriminate; try congruence.
+    specialize (IH b1 (fun f H => Hin f (or_intror H))).
+    destruct (dec_positional D fs' b1) as [[vs b2]| | |]; cbn [bind]; try discriminate; congruence. }
+  specialize (P fs bs (fun f H => H)).
+  destruct (dec_positional D fs bs) as [[pos bs1]| | |] eqn:E; cbn [bind]; try discriminate; try congruence.
+  pose proof (tag_loop_fuel (S (length bs1)) D fs HD Hf bs1 (blen bs1 + 1) [] (init_slots fs pos)) as T.
+  destruct (tag_loop _ D fs bs1 _ _ _) as [[[seen vals] bs2]| | |] eqn:E2; cbn [bind]; try discriminate.
+  - destruct (filter _ _); discriminate.
+  - exfalso. apply T; [left; lia|reflexivity].
+Qed.
+
+(* ---------- the generic decoder ---------- *)
+
+Theorem dec_np : forall fuel, D_np (dec fuel).
+Proof.
+  induction fuel as [|f IH]; intros ls e t tag bs; [cbn; split; discriminate|].
+  cbn [dec]. destruct t as [p|u|u|fs].
+  - apply framed_dec_np. apply good_no_panic. apply prim_dec_good.
+  - destruct tag as [tg|].
+    + destruct (IH ls e u (Some tg) bs) as [Hp Hr].
+      destruct (dec f ls e u (Some tg) bs) as [[v r]| | |] eqn:E; cbn [bind]; try (split; discriminate); try congruence.
+      split; [discriminate|]. intros v' r' [= _ <-]. apply (Hr v r eq_refl).
+    + destruct (IH ls e u None bs) as [Hp Hr].
+      destruct (dec f ls e u None bs) as [[v r]| | |] eqn:E; try (split; discriminate); try congruence.
+      * split; [discriminate|]. intros v' r' [= _ <-]. apply (Hr v r eq_refl).
+      * split; [discriminate|]. intros v' r' [= _ <-]. lia.
+  - apply vec_loop_np. apply IH.
+  - destruct e; try (split; discriminate).
+    apply framed_dec_np. apply dec_struct_with_np. exact IH.
+Qed.
+
+Lemma depth_field_lt f fs : In f fs -> (depth (f_ty f) < depth (TStruct fs))%nat.
+Proof.
+  induction fs as [|[nm tg ls e t] fs IH]; intros H; [contradiction|].
+  destruct H as [<-|H].
+  - cbn. lia.
+  - specialize (IH H). cbn in *. lia.
+Qed.
+
+Theorem dec_fuel_sufficient : forall fuel ls e t tag bs, (depth t <= fuel)%nat ->
+  dec fuel ls e t tag bs <> OutOfFuel.
+Proof.
+  induction fuel as [|f IH]; intros ls e t tag bs Hd; [destruct t; cbn in Hd; lia|].
+  cbn [dec]. destruct t as [p|u|u|fs].
+  - apply framed_dec_fuel. intros x. destruct (prim_dec_good e p x) as [_ [H _]]. exact H.
+  - assert (Hu : (depth u <= f)%nat) by (cbn in Hd; lia).
+    destruct tag as [tg|].
+    + pose proof (IH ls e u (Some tg) bs Hu). destruct (dec f ls e u (Some tg) bs) as [[v r]| | |]; cbn [bind]; try discriminate; congruence.
+    + pose proof (IH ls e u None bs Hu). destruct (dec f ls e u None bs) as [[v r]| | |]; try discriminate; congruence.
+  - assert (Hu : (depth u <= f)%nat) by (cbn in Hd; lia).
+    apply vec_loop_fuel; [apply dec_np| |lia]. intros x. apply IH. exact Hu.
+  - destruct e; try discriminate. apply framed_dec_fuel. intros x.
+    apply dec_struct_with_fuel; [apply dec_np|].
+    intros g Hg tag' x'. apply IH. pose proof (depth_field_lt g fs Hg). lia.
+Qed.
+
+(* the same for whole packets and for reply parsers *)
+Theorem dec_cmd_total : forall fuel c bs, (depth_fields (c_fields c) <= S fuel)%nat ->
+  dec_cmd fuel c bs <> Panic /\ dec_cmd fuel c bs <> OutOfFuel /\
+  (forall v r, dec_cmd fuel c bs = Ok (v, r) -> blen r <= blen bs).
+Proof.
+  intros fuel c bs Hd. unfold dec_cmd, dec_struct.
+  pose proof (framed_dec_np LAdpu true (Some (cf c)) _ (dec_struct_with_np (dec fuel) (c_fields c) (dec_np fuel)) bs) as [A B].
+  split; [exact A|]. split; [|exact B].
+  apply framed_dec_fuel. intros x. apply dec_struct_with_fuel; [apply dec_np|].
+  intros g Hg tag x'. apply dec_fuel_sufficient. pose proof (depth_field_lt g _ Hg). unfold depth_fields in Hd. lia.
+Qed.
+
+Lemma parse_variants_total : forall fuel vs i b0 b1 bs,
+  (forall nm c, In (nm, c) vs -> (depth_fields (c_fields c) <= S fuel)%nat) ->
+  parse_variants fuel vs i b0 b1 bs <> Panic /\ parse_variants fuel vs i b0 b1 bs <> OutOfFuel.
+Proof.
+  intros fuel vs. induction vs as [|[nm c] vs IH]; intros i b0 b1 bs H; cbn [parse_variants]; [split; discriminate|].
+  destruct (_ && _).
+  - destruct (dec_cmd_total fuel c bs (H nm c (or_introl eq_refl))) as [A [B _]].
+    destruct (dec_cmd fuel c bs) as [[v r']| | |]; cbn [bind]; try (split; discriminate); congruence.
+  - apply IH. intros nm' c' Hin. apply (H nm' c'). right. exact Hin.
+Qed.
+
+Theorem parse_enum_total : forall fuel vs bs,
+  (forall nm c, In (nm, c) vs -> (depth_fields (c_fields c) <= S fuel)%nat) ->
+  parse_enum fuel vs bs <> Panic /\ parse_enum fuel vs bs <> OutOfFuel.
+Proof.
+  intros fuel vs bs H. unfold parse_enum. destruct bs as [|b0 [|b1 r]]; try (split; discriminate).
+  apply parse_variants_total. exact H.
+Qed.
